@@ -106,6 +106,7 @@ type proxyCfg struct {
 	AuthLoggingFormat     string        // --auth-logging-format ("" = default)
 	AllowQuerySemicolons  bool          // --allow-query-semicolons (takes effect in the proxy's own server only)
 	SignatureKey          string        // --signature-key "algo:secret": requests to upstreams are signed (GAP-Signature)
+	ReplicaOf             *testEnv      // a second instance of the same deployment: shares the identity provider and (with Redis) the session store of that environment
 	BindAddress           string        // the proxy's own HTTP listener ("" = none: the suites call the handler)
 	SecureBindAddress     string        // with ForceHTTPS: the proxy's own TLS listener (default 127.0.0.1:8443)
 }
@@ -126,17 +127,20 @@ type testEnv struct {
 	redisFault    map[string]string // upper-case command → "before" | "after" (one shot)
 	redisOutage   atomic.Bool       // while set EVERY Redis command is answered with an error (restart / LOADING / network outage)
 	stopClock     chan struct{}
+	replica       bool // idp and mr belong to another environment
 }
 
 func (e *testEnv) close() {
 	if e.stopClock != nil {
 		close(e.stopClock)
 	}
-	e.idp.close()
+	if !e.replica {
+		e.idp.close()
+	}
 	for _, u := range e.ups {
 		u.srv.Close()
 	}
-	if e.mr != nil {
+	if e.mr != nil && !e.replica {
 		e.mr.Close()
 	}
 	os.RemoveAll(e.tmp)
@@ -168,8 +172,12 @@ func newEnv(c *suiteCtx, cfg proxyCfg) (*testEnv, error) {
 		return nil, err
 	}
 	e.tmp = tmp
-	e.idp = newFakeIDP(tClientID)
-	e.idp.advertisedPKCE = cfg.IdPAdvertisedPKCE
+	if cfg.ReplicaOf != nil {
+		e.idp, e.replica = cfg.ReplicaOf.idp, true
+	} else {
+		e.idp = newFakeIDP(tClientID)
+		e.idp.advertisedPKCE = cfg.IdPAdvertisedPKCE
+	}
 	o := options.NewOptions()
 	o.Cookie.Secret = tCookieSecret
 	if cfg.CookieSecret != "" {
@@ -329,7 +337,11 @@ func newEnv(c *suiteCtx, cfg proxyCfg) (*testEnv, error) {
 		o.InjectRequestHeaders = defaultInject()
 	}
 	o.InjectResponseHeaders = cfg.InjectResponse
-	if cfg.Redis {
+	if cfg.Redis && cfg.ReplicaOf != nil && cfg.ReplicaOf.mr != nil {
+		e.mr = cfg.ReplicaOf.mr // (the hooks and the clock of the first instance's environment stay in charge)
+		o.Session.Type = options.RedisSessionStoreType
+		o.Session.Redis.ConnectionURL = "redis://" + e.mr.Addr() + "?max_retries=-1"
+	} else if cfg.Redis {
 		mr, err := miniredis.Run()
 		if err != nil {
 			return nil, err
